@@ -50,6 +50,17 @@ def freeze(v: Any) -> Any:
     return v
 
 
+def const_or_name(v: Any) -> Sym:
+    """a value taken out of a folded table: a constant, or - for a symbolic reference to a function / class - the name term"""
+    if type(v).__name__ == "SymName":
+        parts = str(v).split(".")
+        t: Sym = ("n", parts[0])
+        for p_ in parts[1:]:
+            t = ("a", t, p_)
+        return t
+    return C(v)
+
+
 def C(v: Any) -> Sym:
     return ("c", freeze(v))
 
@@ -401,7 +412,7 @@ def simplify(s: Sym) -> Sym:
         b, i = s[1], s[2]
         if b[0] == "c" and i[0] == "c":
             try:
-                return C(b[1][i[1]])
+                return const_or_name(b[1][i[1]])
             except Exception:
                 return s
         if b[0] == "c" and i[0] == "slice" and all(x is None or x[0] == "c" for x in i[1:]):
